@@ -38,4 +38,13 @@ def run(tier, seed):
                              'kind': 'bounded native (stock cases after TDS.init)', 'counted_as_proved': False})
         if bad:
             pack.violation(name, {'bounded': True, 'inputs': bad, 'native_cmd': 'contracts/bounded_addressing.py'})
+    from contracts import bounded_group_lookup as BL
+    lname = 'C10/andes/models/group.py:GroupBase.get/bounded:element-k-is-the-value-of-device-idx[k]'
+    r = native_guard(pack, lname, BL.run)
+    if r is not None:
+        n3, bad3 = r
+        pack.bounded.append({'function': 'GroupBase.get / idx2model (the lookup behind the group branch of link_external)', 'cases': n3,
+                             'kind': 'bounded (exhaustive small group: all orders, repeats, None)', 'counted_as_proved': False})
+        for w in bad3[:1]:
+            pack.violation(lname, {'bounded': True, 'inputs': w, 'native_cmd': 'contracts/bounded_group_lookup.py'})
     return pack.finish()
